@@ -23,7 +23,7 @@ RULE = (
 )
 ASSUMPTIONS = ["real multi-device execution is not available on this host; only the reshaping logic of the device axis is exercised"]
 CONFIG = {
-    "quick": {"examples": 640, "shards": 16, "shrink_s": 40, "time_budget_s": 240},
+    "quick": {"examples": 1280, "shards": 16, "shrink_s": 40, "time_budget_s": 240},
     "thorough": {"examples": 10000, "shards": 16, "shrink_s": 200, "time_budget_s": 1500},
 }
 
